@@ -70,11 +70,12 @@ func (s StreamSpec) async() bool {
 }
 
 type Op struct {
-	Op  string `json:"op"`
-	A   int    `json:"a"`
-	J   int    `json:"j"`
-	C   int    `json:"c"`
-	Obs []int  `json:"obs,omitempty"`
+	Op   string `json:"op"`
+	A    int    `json:"a"`
+	J    int    `json:"j"`
+	C    int    `json:"c"`
+	Obs  []int  `json:"obs,omitempty"`
+	Fail []int  `json:"fail,omitempty"` // callbacks that return an error at this collection point
 }
 
 // default explicit boundaries of the SDK (used when a Histogram instrument has no view)
@@ -263,6 +264,7 @@ type stream struct {
 	obsF    metric.Float64Observable
 	table   []int // value index per attribute set (slot a-1), 0 = not in the table
 	pending []Op
+	sc      *scenario
 	conc    bool // the pending operations were issued by several goroutines at once
 	trk     [2]*track
 	lines   []map[string]any
@@ -284,6 +286,12 @@ type scenario struct {
 	// only timestamps produced by the SDK are ever compared with each other (no harness clock)
 	seen [2][]time.Time
 	errs int
+	// callback outcomes of the collection point being executed: callback -> how it fails
+	failing  map[int]cbFault
+	cbErrors int // collection points with failing callbacks
+	aborts   int // aborted collection points (cancelled / expiring Collect context)
+	cancelIn atomic.Bool
+	cancelFn context.CancelFunc
 	// gates inside user-supplied exemplar reservoirs (see selector): the provider (first measurement
 	// of an attribute set in an aggregate) and Reservoir.Collect (an aggregate being collected)
 	provArmed, collArmed          atomic.Bool
@@ -340,13 +348,26 @@ func aggregationOf(sp StreamSpec) sdkmetric.Aggregation {
 	panic("unknown aggregation " + sp.Agg)
 }
 
+// observedBy: the attribute sets callback cb observes for stream s at this collection point, in
+// order: those of its sets that are in the table -- only the first few if the callback is to fail
+// after a partial run (sc.cut).
+func (s *stream) observedBy(cb, ncb int) []int {
+	var out []int
+	for a := 1; a <= s.spec.NA; a++ {
+		if a%ncb == cb && s.table[a-1] != 0 {
+			out = append(out, a)
+		}
+	}
+	if f, ok := s.sc.failing[cb]; ok && f.cut >= 0 && f.cut < len(out) {
+		out = out[:f.cut]
+	}
+	return out
+}
+
 // observe makes callback cb's observations for stream s: the attribute sets a with a % ncb == cb
 // that are in the table, each exactly once.
 func (s *stream) observe(cb, ncb int, oi func(int64, metric.ObserveOption), of func(float64, metric.ObserveOption)) {
-	for a := 1; a <= s.spec.NA; a++ {
-		if a%ncb != cb || s.table[a-1] == 0 {
-			continue
-		}
+	for _, a := range s.observedBy(cb, ncb) {
 		iv, fv := s.value(s.table[a-1])
 		opt := metric.WithAttributeSet(attrSets[a-1])
 		if s.spec.float() {
@@ -386,7 +407,7 @@ func newScenario(rng *rand.Rand, specs []StreamSpec, ncb int, reuse bool, deltaF
 		if sp.Exps == nil {
 			sp.Exps = []int{}
 		}
-		s := &stream{spec: sp, table: make([]int, sp.NA)}
+		s := &stream{spec: sp, table: make([]int, sp.NA), sc: sc}
 		for r := range s.trk {
 			s.trk[r] = &track{prevTime: map[int]time.Time{}, prevStart: map[int]time.Time{}, firstStart: map[int]time.Time{}}
 		}
@@ -405,6 +426,9 @@ func newScenario(rng *rand.Rand, specs []StreamSpec, ncb int, reuse bool, deltaF
 				close(sc.entered)
 				<-sc.release
 			}
+			if sc.cancelIn.CompareAndSwap(true, false) {
+				sc.cancelFn() // the collection's context expires while its callbacks run
+			}
 			return nil
 		}))
 	vh.Must(err)
@@ -415,13 +439,13 @@ func (sc *scenario) create(s *stream) {
 	m := sc.meters[s.spec.Meter%len(sc.meters)]
 	name := s.spec.Name
 	var err error
-	cbI := func(_ context.Context, o metric.Int64Observer) error {
+	cbI := func(ctx context.Context, o metric.Int64Observer) error {
 		s.observe(0, sc.ncb, func(v int64, opt metric.ObserveOption) { o.Observe(v, opt) }, nil)
-		return nil
+		return sc.cbResult(ctx, 0)
 	}
-	cbF := func(_ context.Context, o metric.Float64Observer) error {
+	cbF := func(ctx context.Context, o metric.Float64Observer) error {
 		s.observe(0, sc.ncb, nil, func(v float64, opt metric.ObserveOption) { o.Observe(v, opt) })
-		return nil
+		return sc.cbResult(ctx, 0)
 	}
 	fl := s.spec.float()
 	switch s.spec.Kind {
@@ -530,14 +554,14 @@ func (sc *scenario) register(c int) {
 				insts = append(insts, s.obsF)
 			}
 		}
-		reg, err := m.RegisterCallback(func(_ context.Context, o metric.Observer) error {
+		reg, err := m.RegisterCallback(func(ctx context.Context, o metric.Observer) error {
 			for _, s := range ss {
 				s := s
 				s.observe(c, sc.ncb,
 					func(v int64, opt metric.ObserveOption) { o.ObserveInt64(s.obsI, v, opt) },
 					func(v float64, opt metric.ObserveOption) { o.ObserveFloat64(s.obsF, v, opt) })
 			}
-			return nil
+			return sc.cbResult(ctx, c)
 		}, insts...)
 		vh.Must(err)
 		mr.regs = append(mr.regs, reg)
@@ -698,18 +722,26 @@ func (sc *scenario) unknown(g gathered) {
 	}
 }
 
-func (s *stream) takeOps() ([]Op, []int, bool) {
-	ops := s.pending
+// takeOps: the operations since the last collection point, whether they were concurrent, what the
+// callbacks' table holds -- minus what a callback failing after a partial run does not get to -- and
+// which of it is observed by a callback that then returns an error.
+func (s *stream) takeOps() (ops []Op, obs []int, conc bool, of []bool) {
+	ops = s.pending
 	if ops == nil {
 		ops = []Op{}
 	}
-	conc := s.conc
+	conc = s.conc
 	s.pending, s.conc = nil, false
-	obs := make([]int, s.spec.NA)
+	obs, of = make([]int, s.spec.NA), make([]bool, s.spec.NA)
 	if s.spec.async() {
-		copy(obs, s.table)
+		for cb := 0; cb < s.sc.ncb; cb++ {
+			_, failing := s.sc.failing[cb]
+			for _, a := range s.observedBy(cb, s.sc.ncb) {
+				obs[a-1], of[a-1] = s.table[a-1], failing
+			}
+		}
 	}
-	return ops, obs, conc
+	return
 }
 
 // settle projects a collection point whose projection was deferred (see collect).
@@ -735,7 +767,10 @@ func (sc *scenario) collect(deltaFirst bool) {
 		order = []int{1, 0}
 	}
 	for _, r := range order {
-		vh.Must(sc.readers[r].Collect(context.Background(), sc.nextRM(r)))
+		err := sc.readers[r].Collect(context.Background(), sc.nextRM(r))
+		if len(sc.failing) == 0 {
+			vh.Must(err) // (with failing callbacks Collect returns their joined errors -- and the data)
+		}
 	}
 	// project only after both collections (nothing happens between the two Collect calls)
 	var got [2]gathered
@@ -747,10 +782,19 @@ func (sc *scenario) collect(deltaFirst bool) {
 		ops  []Op
 		obs  []int
 		conc bool
+		of   []bool
 	}
 	tk := make([]taken, len(sc.streams))
 	for i, s := range sc.streams {
-		tk[i].ops, tk[i].obs, tk[i].conc = s.takeOps()
+		tk[i].ops, tk[i].obs, tk[i].conc, tk[i].of = s.takeOps()
+	}
+	cberr := ""
+	for _, f := range sc.failing {
+		cberr = f.flavour
+	}
+	if len(sc.failing) > 0 {
+		sc.cbErrors++
+		sc.failing = nil
 	}
 	finish := func() {
 		for i, s := range sc.streams {
@@ -759,7 +803,7 @@ func (sc *scenario) collect(deltaFirst bool) {
 				rd[r], s.trk[r] = sc.project(r, len(sc.seen[r]), s, s.trk[r], got[r].byName[s.spec.Name])
 			}
 			s.lines = append(s.lines, map[string]any{"ev": "Cycle", "ops": tk[i].ops, "obs": tk[i].obs, "conc": tk[i].conc,
-				"d": rd[0], "c": rd[1]})
+				"of": tk[i].of, "cberr": cberr, "d": rd[0], "c": rd[1]})
 			s.ncycles++
 		}
 		for r := 0; r < 2; r++ {
@@ -845,7 +889,7 @@ func (sc *scenario) collectOverlapped(x int) {
 		q1, u1 := sc.project(x, kx, s, s.trk[x], gQ.byName[name])
 		q2, _ := sc.project(x, kx+1, s, u1, gP.byName[name])
 		s.trk[x] = t2
-		ops, obs, conc := s.takeOps()
+		ops, obs, conc, _ := s.takeOps()
 		pair := func(xr RD, i int) map[string]any { return map[string]any{names[x]: xr, names[y]: ys[i][si]} }
 		s.lines = append(s.lines, map[string]any{"ev": "Over", "x": names[x], "ops": ops, "obs": obs, "conc": conc,
 			"p1": pair(p1, 0), "p2": pair(p2, 1), "q1": pair(q1, 0), "q2": pair(q2, 1)})
@@ -896,6 +940,59 @@ func (g *gatedReservoir) Collect(dest *[]exemplar.Exemplar) {
 		<-g.sc.release
 	}
 	g.inner.Collect(dest)
+}
+
+// cbFault: the callback returns an error after observing (cut < 0: all of its sets, else the first
+// cut of them); flavour: "plain", or an error wrapping context.Canceled / context.DeadlineExceeded of
+// a context the callback derived itself while the collection's context is alive.
+type cbFault struct {
+	flavour string
+	cut     int
+}
+
+func (sc *scenario) cbResult(ctx context.Context, cb int) error {
+	f, ok := sc.failing[cb]
+	if !ok {
+		return nil
+	}
+	switch f.flavour {
+	case "canceled":
+		own, cancel := context.WithCancel(ctx)
+		cancel()
+		return fmt.Errorf("c08: backend call of callback %d: %w", cb, own.Err())
+	case "deadline":
+		own, cancel := context.WithDeadline(ctx, time.Unix(0, 0))
+		defer cancel()
+		<-own.Done()
+		return fmt.Errorf("c08: backend call of callback %d: %w", cb, own.Err())
+	}
+	return fmt.Errorf("c08: callback %d failed", cb)
+}
+
+// collectAborted: a collection point at which the Collect context of both readers is already
+// cancelled (mode 0) or is cancelled from inside the last instrument callback (mode 1).  Collect
+// returns the context's error; nothing is reported, nothing is consumed: no line but a marker.
+func (sc *scenario) collectAborted(mode int) {
+	sc.settle()
+	for r := 0; r < 2; r++ {
+		ctx, cancel := context.WithCancel(context.Background())
+		if mode == 0 {
+			cancel()
+		} else {
+			sc.cancelFn = cancel
+			sc.cancelIn.Store(true)
+		}
+		err := sc.readers[r].Collect(ctx, &metricdata.ResourceMetrics{})
+		sc.cancelIn.Store(false)
+		cancel()
+		if err == nil {
+			sc.errs++ // the collection was not aborted: the scenario is not what the trace says
+		}
+	}
+	for _, s := range sc.streams {
+		s.lines = append(s.lines, map[string]any{"ev": "Abort", "mode": mode})
+	}
+	sc.aborts++
 }
 
 type recOp struct {
@@ -1050,16 +1147,17 @@ func (sc *scenario) collectMid(x int, pick func(held *stream) (recOp, bool)) boo
 		ops  []Op
 		obs  []int
 		conc bool
+		of   []bool
 	}
 	tk := make([]taken, len(sc.streams))
 	for i, s := range sc.streams {
-		tk[i].ops, tk[i].obs, tk[i].conc = s.takeOps()
+		tk[i].ops, tk[i].obs, tk[i].conc, tk[i].of = s.takeOps()
 	}
 	p1 := sc.projectPoint(got)
 	if !hasM {
 		for i, s := range sc.streams {
 			s.lines = append(s.lines, map[string]any{"ev": "Cycle", "ops": tk[i].ops, "obs": tk[i].obs, "conc": tk[i].conc,
-				"d": p1[i][0], "c": p1[i][1]})
+				"of": tk[i].of, "cberr": "", "d": p1[i][0], "c": p1[i][1]})
 			s.ncycles++
 		}
 		return false
@@ -1077,8 +1175,10 @@ func (sc *scenario) collectMid(x int, pick func(held *stream) (recOp, bool)) boo
 				"m": []Op{{Op: "Rec", A: m.a, J: m.j}}, "p1": pt(p1[i]), "p2": pt(p2[i])})
 		} else {
 			s.lines = append(s.lines,
-				map[string]any{"ev": "Cycle", "ops": tk[i].ops, "obs": tk[i].obs, "conc": tk[i].conc, "d": p1[i][0], "c": p1[i][1]},
-				map[string]any{"ev": "Cycle", "ops": []Op{}, "obs": tk[i].obs, "conc": false, "d": p2[i][0], "c": p2[i][1]})
+				map[string]any{"ev": "Cycle", "ops": tk[i].ops, "obs": tk[i].obs, "conc": tk[i].conc, "of": tk[i].of, "cberr": "",
+					"d": p1[i][0], "c": p1[i][1]},
+				map[string]any{"ev": "Cycle", "ops": []Op{}, "obs": tk[i].obs, "conc": false, "of": tk[i].of, "cberr": "",
+					"d": p2[i][0], "c": p2[i][1]})
 		}
 		s.ncycles += 2
 	}
@@ -1124,6 +1224,8 @@ func countRegimes(res *vh.Result, sc *scenario) {
 	res.Count("overlapped_pairs", int64(sc.overlapped))
 	res.Count("deferred_projections", int64(sc.nDeferred))
 	res.Count("concurrent_batches", int64(sc.storms))
+	res.Count("callback_error_points", int64(sc.cbErrors))
+	res.Count("aborted_collection_points", int64(sc.aborts))
 	res.Count("twin_first_measurements", int64(sc.twins))
 	res.Count("twin_second_waited", int64(sc.twinWaited))
 	res.Count("twin_second_ran_inside_first", int64(sc.twinInside))
@@ -1140,6 +1242,9 @@ func countRegimes(res *vh.Result, sc *scenario) {
 		type point struct{ d, c RD }
 		var pts []point
 		for _, l := range s.lines {
+			if l["ev"] == "Abort" {
+				continue
+			}
 			if l["ev"] == "Over" || l["ev"] == "Mid" {
 				for _, k := range []string{"p1", "p2"} {
 					m := l[k].(map[string]any)
@@ -1241,7 +1346,8 @@ func heartbeatFor(sp StreamSpec) StreamSpec {
 func overlapCandidates(ops []Op) []int {
 	var out []int
 	for i := 0; i+1 < len(ops); i++ {
-		if ops[i].Op != "Collect" || ops[i+1].Op != "Collect" || len(ops[i].Obs) != len(ops[i+1].Obs) {
+		if ops[i].Op != "Collect" || ops[i+1].Op != "Collect" || len(ops[i].Obs) != len(ops[i+1].Obs) ||
+			len(ops[i].Fail)+len(ops[i+1].Fail) > 0 {
 			continue
 		}
 		same := true
@@ -1301,8 +1407,17 @@ func runOps(sc *scenario, s *stream, ops []Op, deltaFirst bool, pl plan) {
 			sc.register(op.C)
 		case "Unreg":
 			sc.unregister(op.C)
+		case "Abort":
+			copy(s.table, op.Obs)
+			sc.collectAborted(sc.rng.Intn(2))
 		case "Collect":
 			copy(s.table, op.Obs)
+			if len(op.Fail) > 0 {
+				sc.failing = map[int]cbFault{}
+				for _, c := range op.Fail {
+					sc.failing[c] = cbFault{[]string{"plain", "canceled", "deadline"}[sc.rng.Intn(3)], -1}
+				}
+			}
 			switch {
 			case i == pl.overlapAt:
 				sc.collectOverlapped(pl.x)
@@ -1554,6 +1669,7 @@ func random(args []string) {
 				syncS = append(syncS, s)
 			}
 		}
+		faultKind := []int{0, 0, 1, 1, 2}[rng.Intn(5)] // a scenario has callback errors, or aborted collections, or neither
 		steps := 50 + rng.Intn(151)
 		// a scenario has a temperament: how often it collects and how sticky the tables are
 		pCollect := 8 + rng.Intn(25)
@@ -1574,6 +1690,18 @@ func random(args []string) {
 						return recOp{held, 1 + rng.Intn(na), 1 + rng.Intn(len(held.spec.Vals))}, true
 					})
 				default:
+					switch {
+					case faultKind == 1 && rng.Intn(4) == 0:
+						// callback outcomes: one or two callbacks return an error, after all or some of
+						// their observations (cut 0 = without observing)
+						sc.failing = map[int]cbFault{}
+						for n := 1 + rng.Intn(2); n > 0; n-- {
+							sc.failing[rng.Intn(ncb)] = cbFault{[]string{"plain", "canceled", "deadline"}[rng.Intn(3)],
+								[]int{-1, -1, 0, 1, 2}[rng.Intn(5)]}
+						}
+					case faultKind == 2 && rng.Intn(5) == 0:
+						sc.collectAborted(rng.Intn(2)) // ... and a healthy collection point follows at once
+					}
 					sc.collect(rng.Intn(2) == 0)
 				}
 			case x >= 90:
